@@ -81,3 +81,18 @@ Local Open Scope string_scope.
 Theorem C19_source_zeroize :
   lookup "Zeroize::zeroize" gen_delegations = Some (DEach (VAsMutSlice "self") "zeroize").
 Proof. rewrite !tie_deleg_of. reflexivity. Qed.
+
+(* ---- T1: which trait methods are implemented (coq/gen/GenSigs.v gen_impl_methods) ---- *)
+From Coq Require Import String.
+From GA Require Import SigTie.
+From GAGen Require Import GenSigs.
+Local Open Scope string_scope.
+
+(* Zeroize defines zeroize; ConstDefault is implemented for the two storage nodes and the wrapper by their DEFAULT constants (regenerated) *)
+Theorem C19_source_impl_methods :
+  methods_of "Zeroize for GenericArray<T,N>" = Some ["zeroize"] /\
+  methods_of "ConstDefault for GenericArrayImplEven<T,U>" = Some ["DEFAULT"] /\
+  methods_of "ConstDefault for GenericArrayImplOdd<T,U>" = Some ["DEFAULT"] /\
+  methods_of "ConstDefault for GenericArray<T,U>" = Some ["DEFAULT"].
+Proof. repeat split. Qed.
+
